@@ -132,6 +132,18 @@ def pick_paths(rng, st, prof, kind):
     return args
 
 
+def pick_decor(rng, st, paths):
+    """now and then spell an argument in an unclean but equivalent way (./p, p/ for directories, a/../a/b, a//b)"""
+    if rng.random() > 0.2:
+        return None
+    out = []
+    for p in paths:
+        ondisk_dir = p in st.s.dirs
+        kinds = [0, 1, 5] + ([2, 3] if ondisk_dir else []) + ([4] if p.split(b"/")[0] in st.s.dirs else [])
+        out.append(rng.choice(kinds))
+    return out
+
+
 def gen_edit(rng, st, prof):
     r = rng.random()
     if prof.get("ignore") and r < 0.06:
@@ -231,17 +243,21 @@ def gen_step(rng, snap, prof):
     if kind == "edit":
         return gen_edit(rng, st, prof)
     if kind == "add":
-        return c_add(pick_paths(rng, st, prof, "add"))
+        ps = pick_paths(rng, st, prof, "add")
+        return c_add(ps, decor=pick_decor(rng, st, ps))
     if kind == "rm":
-        return c_rm(pick_paths(rng, st, prof, "rm"))
+        ps = pick_paths(rng, st, prof, "rm")
+        return c_rm(ps, decor=pick_decor(rng, st, ps))
     if kind == "commit":
         return c_commit(rng.choice(prof.get("messages", MESSAGES)))
     if kind == "status":
         return c_status()
     if kind == "restore":
-        return c_restore(pick_paths(rng, st, prof, "restore"))
+        ps = pick_paths(rng, st, prof, "restore")
+        return c_restore(ps, decor=pick_decor(rng, st, ps))
     if kind == "restore-staged":
-        return c_restore(pick_paths(rng, st, prof, "restore-staged"), staged=True)
+        ps = pick_paths(rng, st, prof, "restore-staged")
+        return c_restore(ps, staged=True, decor=pick_decor(rng, st, ps))
     if kind == "reset":
         n = rng.randrange(0, st.nlog + 2) if rng.random() < 0.9 else rng.randrange(0, 30)
         return c_reset(rng.choice([None, "soft", "mixed", "hard", "hard"]), b"HEAD@{%d}" % n)
